@@ -14,6 +14,7 @@ import (
 	"encoding/json"
 	"fmt"
 	"os"
+	"sync"
 	"testing"
 
 	"github.com/aergoio/aergo/v2/internal/enc/proto"
@@ -60,7 +61,70 @@ type vCase struct {
 	Raw      string     `json:"raw,omitempty"`
 	V        int32      `json:"v,omitempty"`
 	G        *vGenesis  `json:"g,omitempty"`
-	Vers     []int32    `json:"vers,omitempty"` // FB: fork versions of the child blocks prepared on top of the parent
+	Vers     []int32    `json:"vers,omitempty"`  // FB: fork versions of the child blocks prepared on top of the parent
+	Items    []vCase    `json:"items,omitempty"` // CONC: fixed inputs recomputed concurrently
+	Workers  int        `json:"workers,omitempty"`
+	Iters    int        `json:"iters,omitempty"`
+}
+
+// concEval: everything C19 says is a FUNCTION of the input (identifier inputs, identifiers, roots,
+// encodings), as one string.  Used sequentially for the expected value and from many goroutines at once.
+func concEval(c *vCase) (res string) {
+	defer func() {
+		if r := recover(); r != nil {
+			res = "panic: " + fmt.Sprint(r)
+		}
+	}()
+	switch c.Kind {
+	case "H":
+		bh := c.H.header()
+		var full bytes.Buffer
+		writeBlockHeader(&full, bh)
+		nosign, _ := bh.bytesForDigest()
+		return hx(full.Bytes()) + "|" + hx(nosign) + "|" + hx((&Block{Header: bh}).calculateBlockHash())
+	case "T":
+		return hx(c.T.tx().CalculateTxHash())
+	case "TR":
+		txs := make([]*Tx, len(c.Txs))
+		for i := range c.Txs {
+			txs[i] = c.Txs[i].tx()
+			txs[i].Hash = txs[i].CalculateTxHash()
+		}
+		return hx(CalculateTxsRootHash(txs))
+	case "R":
+		rc := c.R.receipt()
+		out := ""
+		for _, f := range []func() ([]byte, error){rc.marshalStoreBinary, rc.marshalStoreBinaryV2, rc.MarshalMerkleBinary, rc.MarshalMerkleBinaryV2} {
+			b, err := f()
+			if err != nil {
+				out += "err|"
+			} else {
+				out += hx(b) + "|"
+			}
+		}
+		return out + hx((&ReceiptMerkle{rc, 1, DummyBlockVersionner(c.Ver)}).GetHash())
+	case "RS":
+		rs := &Receipts{}
+		rs.SetHardFork(DummyBlockVersionner(c.Ver), 1)
+		var rl []*Receipt
+		for i := range c.Rs {
+			rl = append(rl, c.Rs[i].receipt())
+		}
+		rs.Set(rl)
+		if c.HasBloom {
+			bf := bloom.New(BloomBitBits, BloomHashKNum)
+			for _, k := range c.BloomKey {
+				bf.Add(unhex(k))
+			}
+			rs.MergeBloom(bf)
+		}
+		enc, err := rs.MarshalBinary()
+		if err != nil {
+			return "err"
+		}
+		return hx(rs.MerkleRoot()) + "|" + hx(enc)
+	}
+	return "?"
 }
 
 type vSnap struct {
@@ -407,6 +471,58 @@ func TestVerifCodecEngine(t *testing.T) {
 				o["balance_len"] = len(d.Balance)
 				o["orig_balance_kept"] = len(g.Balance) == len(c.G.Balance)
 			}
+		case "CONC": // fixed inputs recomputed by many goroutines at once, compared with the sequentially computed values
+			want := make([]string, len(c.Items))
+			for i := range c.Items {
+				want[i] = concEval(&c.Items[i])
+			}
+			again := 0
+			for i := range c.Items {
+				if concEval(&c.Items[i]) != want[i] {
+					again++
+				}
+			}
+			o["sequential_unstable"] = again
+			workers, iters := c.Workers, c.Iters
+			var mu sync.Mutex
+			var wg sync.WaitGroup
+			bad := []map[string]interface{}{}
+			total := 0
+			for g := 0; g < workers; g++ {
+				wg.Add(1)
+				go func(g int) {
+					defer wg.Done()
+					n := 0
+					for it := 0; it < iters; it++ {
+						for k := range c.Items {
+							i := (k*(g+1) + it + g) % len(c.Items) // every goroutine walks the inputs in its own order
+							got := concEval(&c.Items[i])
+							n++
+							if got != want[i] {
+								mu.Lock()
+								if len(bad) < 5 {
+									w, gt := want[i], got
+									if len(w) > 200 {
+										w = w[:200]
+									}
+									if len(gt) > 200 {
+										gt = gt[:200]
+									}
+									bad = append(bad, map[string]interface{}{"item": i, "kind": c.Items[i].Kind, "want": w, "got": gt, "goroutine": g})
+								}
+								mu.Unlock()
+							}
+						}
+					}
+					mu.Lock()
+					total += n
+					mu.Unlock()
+				}(g)
+			}
+			wg.Wait()
+			o["evaluations"] = total
+			o["mismatches"] = bad
+			o["want"] = want
 		case "MC": // MakeChainId / DecodeChainIdVersion / ChainIdEqualWithoutVersion
 			raw := unhex(c.Raw)
 			o["decode_ver"] = DecodeChainIdVersion(raw)
